@@ -10,12 +10,15 @@ for p in sorted(registry.QUICK):
     t = [h['name'] for h in registry.select(p, 'thorough', 0) if h['name'] not in q]
     print('**%s** quick (%d): %s' % (p, len(q), ', '.join('`%s`' % n for n in q)))
     if t:
-        if p == 'C11':
-            t2 = [n for n in t if not n.startswith('c11_cell')]
-            print('  thorough adds (%d): all %d `c11_cell_<role>_<kind>` harnesses%s' % (len(t), len(t) - len(t2), (', ' + ', '.join('`%s`' % n for n in t2)) if t2 else ''))
+        if False:
+            pass
         else:
             print('  thorough adds (%d): %s' % (len(t), ', '.join('`%s`' % n for n in t)))
     print()
 print('Outside every registered command (compiled, not decided within the limits; `bin/check DEV --only <name>`):')
+later = [n for n, why in registry.EXPERIMENTAL.items() if why.startswith('not run on the final tree')]
 for n, why in sorted(registry.EXPERIMENTAL.items()):
-    print('* `%s` - %s' % (n, why))
+    if n not in later:
+        print('* `%s` - %s' % (n, why))
+if later:
+    print('* %d further `c11_cell_<role>_<kind>` harnesses - not run on the final tree (time); same generator as the decided cells' % len(later))
